@@ -35,6 +35,10 @@ enum Act {
     Bypass,
     BypassNoAuth,
     BypassStrangerAuth,
+    /// bypass authorised by the operator with a proof from the previous (retained) signer set
+    BypassOldSet,
+    /// the same without any authorisation
+    BypassOldSetNoAuth,
 }
 
 struct C09 {
@@ -93,6 +97,9 @@ impl Scenario for C09 {
         let mut v: Vec<Act> = vec![Act::Rotate, Act::Bypass];
         v.extend(dts.into_iter().map(Act::Advance));
         v.extend([Act::RotateInstalledSet, Act::RotateBadProof, Act::BypassNoAuth, Act::BypassStrangerAuth]);
+        if _m.epoch >= 2 {
+            v.extend([Act::BypassOldSet, Act::BypassOldSetNoAuth]);
+        }
         v
     }
 
@@ -120,14 +127,17 @@ impl Scenario for C09 {
             Act::Bypass => (fresh.clone(), fresh.clone(), true, vec![ctx.operator.clone()]),
             Act::BypassNoAuth => (fresh.clone(), fresh.clone(), true, vec![]),
             Act::BypassStrangerAuth => (fresh.clone(), fresh.clone(), true, vec![ctx.stranger.clone()]),
+            Act::BypassOldSet => (fresh.clone(), fresh.clone(), true, vec![ctx.operator.clone()]),
+            Act::BypassOldSetNoAuth => (fresh.clone(), fresh.clone(), true, vec![]),
             Act::Advance(_) => unreachable!(),
         };
         out.kind = match a {
             Act::Rotate => "rotate",
-            Act::Bypass => "bypass",
+            Act::Bypass | Act::BypassOldSet => "bypass",
             _ => "rotate-must-fail",
         };
-        let proof = honest_proof(&ctx.keys, &latest, &DOMAIN, &signed_for.rotation_data_hash());
+        let signer = if matches!(a, Act::BypassOldSet | Act::BypassOldSetNoAuth) { pool(m.epoch - 2) } else { latest.clone() };
+        let proof = honest_proof(&ctx.keys, &signer, &DOMAIN, &signed_for.rotation_data_hash());
         let h0 = w.state_hash();
         let call = w.call(
             &ctx.gw,
@@ -139,7 +149,7 @@ impl Scenario for C09 {
         let elapsed_ok = m.now - m.last >= ctx.delay;
         let want = match a {
             Act::Rotate => elapsed_ok,
-            Act::Bypass => true,
+            Act::Bypass | Act::BypassOldSet => true,
             _ => false,
         };
         out.expect(call.ok == want, "rotation.outcome", || {
@@ -177,7 +187,7 @@ fn main() {
         let s = C09 { cfgs };
         let mut o = Opts::new(tier, if thorough { 12 } else { 6 });
         o.min_depth = 4;
-        o.rule = "minimum delay in {0,1,5,1000,u64::MAX} x deployment time in {0,100,1.7e9}; all sequences over {advance 1 / delay-1 / delay / delay+1 seconds, non-bypass rotation with an honest proof, non-bypass rotation to an already-installed set, non-bypass rotation with a proof for another candidate, bypass with operator / nobody / stranger authorising} up to depth 6 (quick) / 9 (thorough); model: last successful rotation time (deployment counts)".into();
+        o.rule = "minimum delay in {0,1,5,1000,u64::MAX} x deployment time in {0,100,1.7e9}; all sequences over {advance 1 / delay-1 / delay / delay+1 seconds, non-bypass rotation with an honest proof, non-bypass rotation to an already-installed set, non-bypass rotation with a proof for another candidate, bypass with operator / nobody / stranger authorising, bypass with a proof from the previous retained set with and without the operator} up to depth 6 (quick) / 9 (thorough); model: last successful rotation time (deployment counts)".into();
         (s, o)
     });
 }
